@@ -1,4 +1,199 @@
-import ZtypV.Spec
+/-
+C02 — View serialization is spec-exact and round-trips.
+
+"For every supported type and value, serializing the view yields exactly the SSZ-spec encoding
+and the reported value byte length equals the length of that encoding.  Deserializing that
+encoding yields a view with the same encoding, the same hash-tree-root and, through the typed
+getters (element, field, bit, selector, length), the same component values."
+
+Model: `View.construct` (FromElements / FromFields / FromBits / FromView), `View.serializeView`
+(`Serialize`), `View.valueByteLength` (`ValueByteLength`), `View.viewVal` (the typed getters
+`Get`, `Length`, `Selector`, `Value`, bit and packed-element reads composed into a value).
+
+Side conditions carried by the theorems (all decidable):
+* `t.wf`, `hasType t v` — a legal SSZ type and a value of it;
+* `View.inRange t` — every tree depth the view navigates is `< 64` (list and bitlist views
+  navigate one level above their contents) and list limits fit `uint64`.  This is NOT
+  vacuous caution: `tree.ToGindex64` rejects depth ≥ 64, so e.g. `List[Bytes32, 2^62+1]` with one
+  element answers `Get(0)` with an error in the Go code and in the model.  It holds for all
+  types whose limits / lengths are ≤ 2^62 (`C02_inRange_of_small`).
+* `(serialize t v).length < 2^32` for `C02_ser` — `EncodingWriter.WriteOffset` panics on offsets
+  that do not fit `uint32`.  Not needed for `C02_len`, `C02_getters`.
+
+All theorems hold for `Vector/List` of `boolean` as well (finding D3 changes the root only).
+-/
+import ZtypV.Proofs.ViewSerMain
+import ZtypV.Proofs.ViewLenMain
+import ZtypV.Proofs.ViewGetMain
+import ZtypV.Proofs.ViewConstruct
+import ZtypV.Proofs.ViewRange
+import ZtypV.Proofs.ViewRoot
+import ZtypV.Model.Decode
 namespace ZtypV.Props.C02
-theorem placeholder : True := trivial
+open ZtypV ZtypV.View
+
+/-- `Serialize` of the view built from `v : t` writes exactly the SSZ-spec encoding. -/
+theorem C02_ser (h : HashFn) (t : Ty) (v : Val) (n : Node) (hwf : t.wf = true)
+    (hrange : inRange t = true) (hty : hasType t v = true)
+    (hsize : (serialize t v).length < 2 ^ 32) (hc : construct h t v = .ok n) :
+    serializeView t n = .ok (serialize t v) :=
+  ser_ok h v t n hwf hrange hty (Or.inr hsize) hc
+
+/-- Variant without the size bound for types whose encoding contains no offsets
+    (`View.offsetFree`: no series of variable-size elements, no container with a variable-size
+    field, anywhere inside): `WriteOffset` is never called. -/
+theorem C02_ser_offsetFree (h : HashFn) (t : Ty) (v : Val) (n : Node) (hwf : t.wf = true)
+    (hrange : inRange t = true) (hty : hasType t v = true)
+    (hfree : offsetFree t = true) (hc : construct h t v = .ok n) :
+    serializeView t n = .ok (serialize t v) :=
+  ser_ok h v t n hwf hrange hty (Or.inl hfree) hc
+
+/-- `ValueByteLength` of the view is the length of the SSZ-spec encoding (no size bound needed). -/
+theorem C02_len (h : HashFn) (t : Ty) (v : Val) (n : Node) (hwf : t.wf = true)
+    (hrange : inRange t = true) (hty : hasType t v = true) (hc : construct h t v = .ok n) :
+    valueByteLength t n = .ok (serialize t v).length :=
+  len_ok h v t n hwf hrange hty hc
+
+/-- Reading the view back through the typed getters only (`Get(i)` of vectors / lists /
+    containers / bitfields, `Length()`, `Selector()`, `Value()`, packed-element and bit reads)
+    returns exactly the components of `v`. -/
+theorem C02_getters (h : HashFn) (t : Ty) (v : Val) (n : Node) (hwf : t.wf = true)
+    (hrange : inRange t = true) (hty : hasType t v = true) (hc : construct h t v = .ok n) :
+    viewVal t n = .ok v :=
+  get_ok h v t n hwf hrange hty hc
+
+/-- The reported length is the length of what `Serialize` writes. -/
+theorem C02_len_eq_ser (h : HashFn) (t : Ty) (v : Val) (n : Node) (hwf : t.wf = true)
+    (hrange : inRange t = true) (hty : hasType t v = true)
+    (hsize : (serialize t v).length < 2 ^ 32) (hc : construct h t v = .ok n) :
+    ∃ bs, serializeView t n = .ok bs ∧ valueByteLength t n = .ok bs.length :=
+  ⟨_, C02_ser h t v n hwf hrange hty hsize hc, C02_len h t v n hwf hrange hty hc⟩
+
+/-- The constructors accept every typed value of a well-formed type (so the hypothesis
+    `construct h t v = .ok n` of the theorems above is always satisfiable). -/
+theorem C02_construct_total (h : HashFn) (t : Ty) (v : Val) (hwf : t.wf = true)
+    (hty : hasType t v = true) : ∃ n, construct h t v = .ok n :=
+  construct_total h v t hwf hty
+
+/-- C02, first half, in one statement: for every supported type and value the view exists, its
+    `Serialize` output is the spec encoding, `ValueByteLength` is that encoding's length and the
+    typed getters return the components. -/
+theorem C02_view (h : HashFn) (t : Ty) (v : Val) (hwf : t.wf = true)
+    (hrange : inRange t = true) (hty : hasType t v = true)
+    (hsize : offsetFree t = true ∨ (serialize t v).length < 2 ^ 32) :
+    ∃ n, construct h t v = .ok n ∧
+      serializeView t n = .ok (serialize t v) ∧
+      valueByteLength t n = .ok (serialize t v).length ∧
+      viewVal t n = .ok v := by
+  obtain ⟨n, hc⟩ := construct_total h v t hwf hty
+  exact ⟨n, hc, ser_ok h v t n hwf hrange hty hsize hc, len_ok h v t n hwf hrange hty hc,
+    get_ok h v t n hwf hrange hty hc⟩
+
+/-- `inRange` holds for every well-formed type whose vector / bitvector lengths, list / bitlist
+    limits and field counts are at most `2^62`. -/
+theorem C02_inRange_of_small (t : Ty) (hwf : t.wf = true) (hsmall : limitsLe (2 ^ 62) t = true) :
+    inRange t = true :=
+  inRange_of_small t hwf hsmall
+
+/-! ### round trip (conditional on the decode theorem proved under C03) -/
+
+/-- the decode soundness statement C03 proves: an accepted input is the encoding of a typed value
+    and the decoded backing is the one the constructors build for that value -/
+def DecodeSound : Prop :=
+  ∀ (h : HashFn) (t : Ty) (bs : Bytes) (n : Node), t.wf = true → decodeTop h t bs = .ok n →
+    ∃ v', hasType t v' = true ∧ serialize t v' = bs ∧ construct h t v' = .ok n
+
+/-- the decoder accepts every spec encoding (C03 completeness) -/
+def DecodeComplete : Prop :=
+  ∀ (h : HashFn) (t : Ty) (v : Val), t.wf = true → hasType t v = true →
+    (serialize t v).length < 2 ^ 32 → ∃ n, decodeTop h t (serialize t v) = .ok n
+
+/-- `serialize` is injective on typed values (offsets are `uint32`: needs the size bound) -/
+def SerializeInjective : Prop :=
+  ∀ (t : Ty) (v w : Val), t.wf = true → hasType t v = true → hasType t w = true →
+    (serialize t v).length < 2 ^ 32 → serialize t v = serialize t w → v = w
+
+/-- Full round-trip statement of C02: decoding the spec encoding of `v` yields a view with the
+    same encoding, the same reported length, the spec hash-tree-root (outside finding D3) and the
+    same components through the getters. -/
+def C02_roundtrip_full : Prop :=
+  ∀ (h : HashFn) (t : Ty) (v : Val), t.wf = true → inRange t = true → hasType t v = true →
+    (serialize t v).length < 2 ^ 32 →
+    ∃ n, decodeTop h t (serialize t v) = .ok n ∧
+      serializeView t n = .ok (serialize t v) ∧
+      valueByteLength t n = .ok (serialize t v).length ∧
+      viewVal t n = .ok v ∧
+      (noBoolSeries t = true → n.root h = htr h t v)
+
+/-- What is proved here: whenever the decoder accepts the encoding of `v` (given decode
+    soundness), the decoded view has the same encoding and length; with injectivity of
+    `serialize` also the same components and (by C01) the spec root. -/
+theorem C02_roundtrip_of_decode (hsound : DecodeSound)
+    (h : HashFn) (t : Ty) (v : Val) (n : Node) (hwf : t.wf = true) (hrange : inRange t = true)
+    (hty : hasType t v = true) (hsize : (serialize t v).length < 2 ^ 32)
+    (hd : decodeTop h t (serialize t v) = .ok n) :
+    serializeView t n = .ok (serialize t v) ∧
+    valueByteLength t n = .ok (serialize t v).length ∧
+    (SerializeInjective → viewVal t n = .ok v ∧ (noBoolSeries t = true → n.root h = htr h t v)) := by
+  obtain ⟨v', hty', hser, hc⟩ := hsound h t _ n hwf hd
+  refine ⟨?_, ?_, ?_⟩
+  · rw [← hser]; exact C02_ser h t v' n hwf hrange hty' (by rw [hser]; exact hsize) hc
+  · rw [← hser]; exact C02_len h t v' n hwf hrange hty' hc
+  · intro hinj
+    have hv : v = v' := hinj t v v' hwf hty hty' hsize hser.symm
+    subst hv
+    exact ⟨C02_getters h t v n hwf hrange hty hc,
+      fun hnb => construct_root_of_ok h t v n hwf hnb hty hc⟩
+where
+  construct_root_of_ok (h : HashFn) (t : Ty) (v : Val) (n : Node) (hwf : t.wf = true)
+      (hnb : noBoolSeries t = true) (hty : hasType t v = true) (hc : construct h t v = .ok n) :
+      n.root h = htr h t v := by
+    obtain ⟨n', hn', hr⟩ := construct_root h t v hwf hnb hty
+    rw [hc] at hn'; cases hn'; exact hr
+
+/-- The full statement follows from decode soundness + completeness + injectivity. -/
+theorem C02_roundtrip_full_of (hsound : DecodeSound) (hcomplete : DecodeComplete)
+    (hinj : SerializeInjective) : C02_roundtrip_full := by
+  intro h t v hwf hrange hty hsize
+  obtain ⟨n, hd⟩ := hcomplete h t v hwf hty hsize
+  obtain ⟨h1, h2, h3⟩ := C02_roundtrip_of_decode hsound h t v n hwf hrange hty hsize hd
+  exact ⟨n, hd, h1, h2, (h3 hinj).1, (h3 hinj).2⟩
+
+/-! ### non-vacuity: a nested type with every kind of component -/
+
+/-- Container{ uint16, List[uint64,5], Bitlist[10], Vector[List[uint8,3],2] (variable-size
+    elements, offsets), Union[None, boolean, Bytes4], Vector[boolean,3] (D3), Bitvector[9] } -/
+def exT : Ty := .container [.uint 2, .list (.uint 8) 5, .bitlist 10,
+  .vector (.list (.uint 1) 3) 2, .union true [.bool, .bytesN 4], .vector .bool 3, .bitvector 9]
+def exV : Val := .seq [.num 513, .seq [.num 1, .num 2, .num 3], .bits [true, false, true],
+  .seq [.seq [.num 7], .seq []], .union 2 (.bytes [1, 2, 3, 4]),
+  .seq [.bool true, .bool false, .bool true], .bits [true, true, false, false, false, false, false, false, true]]
+def exH : HashFn := fun a b => (a ++ b).take 32
+
+example : exT.wf = true := by decide
+example : inRange exT = true := by decide
+example : hasType exT exV = true := by decide
+example : (serialize exT exV).length < 2 ^ 32 := by decide
+example : ∃ n, construct exH exT exV = .ok n := ⟨_, rfl⟩
+example : limitsLe (2 ^ 62) exT = true := by decide
+example : offsetFree exT = false := by decide
+example : offsetFree (.list (.vector (.uint 8) 4) 100) = true := by decide
+example : (serialize exT exV).length = 62 := by decide
+
+/-- the hypotheses of `C02_ser`, `C02_len`, `C02_getters` are jointly satisfiable and the
+    conclusions are the concrete expected results -/
+example : ∃ n, construct exH exT exV = .ok n ∧
+    serializeView exT n = .ok (serialize exT exV) ∧
+    valueByteLength exT n = .ok (serialize exT exV).length ∧ viewVal exT n = .ok exV := by
+  refine ⟨_, rfl, ?_, ?_, ?_⟩
+  · exact C02_ser exH exT exV _ (by decide) (by decide) (by decide) (by decide) rfl
+  · exact C02_len exH exT exV _ (by decide) (by decide) (by decide) rfl
+  · exact C02_getters exH exT exV _ (by decide) (by decide) (by decide) rfl
+
+/-- the `inRange` hypothesis is necessary: a list view whose limit needs depth 63 cannot be read -/
+example : inRange (.list (.bytesN 32) (2 ^ 62 + 1)) = false := by decide +kernel
+set_option maxRecDepth 8000 in
+example : ∃ n, construct exH (.list (.bytesN 1) (2 ^ 62 + 1)) (.seq [.bytes [5]]) = .ok n ∧
+    viewVal (.list (.bytesN 1) (2 ^ 62 + 1)) n = .error .other := ⟨_, rfl, rfl⟩
+
 end ZtypV.Props.C02
